@@ -47,6 +47,30 @@ fn main() {
         let path = args.get(3).cloned().unwrap_or_default();
         let code = match prop {
             "C01" | "C02" | "C03" | "C04" | "C05" | "C09" | "C10" | "C19" => protochecks::replay(prop, &path),
+            "C08" | "C14" | "C15" | "C16" => {
+                let v: serde_json::Value = match std::fs::read(&path).ok().and_then(|d| serde_json::from_slice(&d).ok()) {
+                    Some(v) => v,
+                    None => {
+                        eprintln!("cannot read replay file {}", path);
+                        std::process::exit(2);
+                    }
+                };
+                let benchmark = v["signature"].as_str().map_or(false, |s| s.ends_with("@benchmark-build"));
+                if benchmark && !cfg!(feature = "benchmark") {
+                    let st = std::process::Command::new("/verif/harness/target/release/hsv-bench").args(&args[1..]).status();
+                    std::process::exit(st.ok().and_then(|s| s.code()).unwrap_or(2));
+                }
+                let code = match prop {
+                    "C08" => seq_full::replay(&v),
+                    "C14" => seq_sender::replay(&v),
+                    "C15" => hostile::replay(&v),
+                    _ => seq_store::replay(&v),
+                };
+                if code == 1 {
+                    println!("VIOLATION property={} replay={}", prop, path);
+                }
+                code
+            }
             _ => {
                 eprintln!("no replay support for {}", prop);
                 2
